@@ -18,6 +18,7 @@ import (
 	"net"
 	"os"
 	"os/exec"
+	"sort"
 	"strconv"
 	"strings"
 	"sync"
@@ -302,6 +303,8 @@ func TestVfWire(t *testing.T) {
 		// loopback servers: count connections per (address, port)
 		var lmu sync.Mutex
 		conns := map[string]int{}
+		connTimes := []int{}
+		connT0 := time.Now()
 		var listeners []net.Listener
 		servers := map[string]string{}
 		for _, p := range sc.Listen {
@@ -323,6 +326,7 @@ func TestVfWire(t *testing.T) {
 					}
 					lmu.Lock()
 					conns[c.LocalAddr().String()]++
+					connTimes = append(connTimes, int(time.Since(connT0)/time.Microsecond))
 					lmu.Unlock()
 					firstConn.CompareAndSwap(0, time.Now().UnixNano())
 					go vfWireServe(c, mode)
@@ -573,6 +577,8 @@ func TestVfWire(t *testing.T) {
 			errLines = errLines[:40]
 		}
 		lmu.Lock()
+		cts := append([]int{}, connTimes...)
+		sort.Ints(cts)
 		cs := map[string]int{}
 		for k, v := range conns {
 			cs[k] = v
@@ -580,7 +586,7 @@ func TestVfWire(t *testing.T) {
 		lmu.Unlock()
 		return map[string]interface{}{"ev": "WireRun", "id": sc.ID, "name": sc.Name, "args": sc.Args, "probes": probes, "noise": noise, "drops": drops,
 			"injected": inj, "stdout": lines, "stdoutComplete": complete, "stderr": errLines, "exit": code, "exitT": int(exitAt.Sub(t0) / time.Microsecond),
-			"killed": killed, "flapT": flapAt, "sigintT": sigintAt, "floodN": floodN, "conns": cs, "panic": strings.Contains(stderr.String(), "panic:") || strings.Contains(stderr.String(), "SIGSEGV") || strings.Contains(stderr.String(), "fatal error")}
+			"killed": killed, "flapT": flapAt, "sigintT": sigintAt, "floodN": floodN, "conns": cs, "connTimes": cts, "panic": strings.Contains(stderr.String(), "panic:") || strings.Contains(stderr.String(), "SIGSEGV") || strings.Contains(stderr.String(), "fatal error")}
 	}
 }
 
